@@ -748,6 +748,19 @@ func (h *hmapType) enumerateWith(fi *core.FuncInfo, cl *hmapClassifier, mode str
 					return constant.MakeBool(!constant.BoolVal(c))
 				}
 			}
+		case *ast.BinaryExpr:
+			if v.Op == token.EQL || v.Op == token.NEQ {
+				a, b := modeConst(v.X, depth+1), modeConst(v.Y, depth+1)
+				if a != nil && b != nil && a.Kind() == b.Kind() {
+					var eq bool
+					if a.Kind() == constant.Bool {
+						eq = constant.BoolVal(a) == constant.BoolVal(b)
+					} else {
+						eq = constant.Compare(a, token.EQL, b)
+					}
+					return constant.MakeBool(eq == (v.Op == token.EQL))
+				}
+			}
 		case *ast.SelectorExpr:
 			// plan.front with plan := table[mode]
 			id, ok := ast.Unparen(v.X).(*ast.Ident)
@@ -1520,6 +1533,13 @@ func (h *hmapType) checkMoves() {
 					preset[o] = constant.MakeBool(mask&(1<<i) != 0)
 				}
 				p1, o1 := h.enumerateWith(fi, newHmapClassifier(fi), "", preset)
+				ps = append(ps, p1...)
+				over = over || o1
+			}
+		} else if modeParam(fi) != nil {
+			// a helper that takes the put mode (reposition(e, m)) is judged once per mode
+			for _, mode := range []string{"PUT_FORCE_FIRST", "PUT_FIRST", "PUT_FORCE_LAST", "PUT_LAST"} {
+				p1, o1 := h.enumerate(fi, newHmapClassifier(fi), mode)
 				ps = append(ps, p1...)
 				over = over || o1
 			}
